@@ -187,12 +187,17 @@ FUNCS = [S_ + 'Signal.' + m for m in ('reset_values', 'clear_cache', 'add_consta
                                          'generate_displacement_and_velocity_series')]
 
 
-def run_op(V, cls, opname, build, readers, is_reader=False, check='cache', dtype='float'):
+def run_op(V, cls, opname, build, readers, is_reader=False, check='cache', dtype='float', prewarm=False):
     st = {}
 
     def setup():
         CS.install_cache_summaries(V)
-        o = CS.make_state(V, cls, cold=(check == 'own'), dtype=dtype)
+        o = CS.make_state(V, cls, cold=(check == 'own' or prewarm), dtype=dtype)
+        if prewarm:
+            # history prefix "read every derived quantity": warms every cache the object has, including any memoised
+            # field this contract does not know about (the classic read -> mutate -> read pattern)
+            for r in readers:
+                V.itp.get_attr(o, r)
         run, params = build(V, o)
         st.update(o=o, run=run, params=params, pre=CS.shallow(o))
         return ((o,), {})
@@ -214,6 +219,7 @@ def run_op(V, cls, opname, build, readers, is_reader=False, check='cache', dtype
             CS.check_fresh_equivalence(V, out, o, readers)
         CS.check_ownership(V, out, o, st['params'])
         if check == 'own':
+            out.replay_info = dict(module='objects', cls=cls, op=opname, is_reader=False, readers=[])
             CS.check_time_axis(V, out, o)
             continue
         if is_reader:
@@ -274,3 +280,16 @@ def constructor(V, cls):
         CS.check_fresh_equivalence(V, out, o, readers)
         CS.check_ownership(V, out, o, [('values', st['a'])])
         out.prove('constructor-caches-cold', T.sand(T.snot(V.itp.get_attr(o, '_cached_fa')), T.snot(V.itp.get_attr(o, '_cached_smooth_fa'))))
+
+
+MUTATING = [k for k in list(COMMON_OPS) + list(ACC_OPS) if not k.endswith('()') and k not in ('get_section_average',)]
+
+
+@unit('C04', 'operation-after-reading-everything', functions=FUNCS,
+      cases=[dict(cls='AccSignal', op=k) for k in MUTATING] + [dict(cls='Signal', op=k) for k in MUTATING if k in COMMON_OPS],
+      modes=('unbounded',), budget_ms=3000)
+def op_after_reads(V, cls, op):
+    ops = dict(COMMON_OPS)
+    ops.update(ACC_OPS)
+    readers = CS.READERS_ACC if cls == 'AccSignal' else CS.READERS_SIGNAL
+    run_op(V, cls, op, ops[op], readers, prewarm=True)
